@@ -50,6 +50,9 @@ def run(ctx):
     scenarios += [('step_generators.MinStepGenerator', s) for s in history.shared_generator_scenarios()]
     scenarios += [('finite_difference.LogRule.rule', s) for s in history.cache_scenarios()]
     scenarios += [('core.Derivative', s) for s in args_scenarios()]
+    scenarios += [('core.Derivative', s) for s in history.other_point_scenarios('Derivative', None)]
+    scenarios += [('core.Jacobian', s) for s in history.other_point_scenarios('Jacobian', 2)]
+    scenarios += [('core.Hessian', s) for s in history.other_point_scenarios('Hessian', 2)]
     for construct, sc in scenarios:
         try:
             history.run_scenario(rep, ctx.repo, sc, 'R-HISTORY', construct, core.relpath)
